@@ -56,6 +56,16 @@ const PROBES: [[f64; 4]; 6] = [
     [3.0e6, 1.0e6, 5.5e6, 1999.0],
 ];
 
+/// Every built-in operator behind a registered macro, bare (`x:<op>`) and as a pipeline
+/// body (`y:<op>`), so that invocation arguments reach the constructors through the
+/// globals path as well as through step-local parameters.
+fn wrap_builtins(c: &mut dyn Context) {
+    for n in geodesy::verif_hooks::builtin_operator_names() {
+        c.register_resource(&format!("x:{n}"), n);
+        c.register_resource(&format!("y:{n}"), &format!("noop | {n}"));
+    }
+}
+
 /// C09: arbitrary text through the tokenizer,
 /// `parse_proj`, `Context::op` and `apply` never panics.
 pub fn text_target(data: &[u8]) {
@@ -93,6 +103,7 @@ pub fn text_target(data: &[u8]) {
         };
         if sel % 2 == 0 {
             let mut c = Minimal::new();
+            wrap_builtins(&mut c);
             check(&mut |t, d| {
                 let op = c.op(t).ok()?;
                 let a = c.apply(op, Fwd, d).ok()?;
@@ -104,6 +115,7 @@ pub fn text_target(data: &[u8]) {
             c.register_resource("m:a", "addone | helmert x=$x(1) | m:b");
             c.register_resource("m:b", "cart ellps=$e(intl) | cart inv");
             c.register_resource("m:loop", "noop | m:loop");
+            wrap_builtins(&mut c);
             check(&mut |t, d| {
                 let op = c.op(t).ok()?;
                 let a = c.apply(op, Fwd, d).ok()?;
